@@ -1,38 +1,42 @@
 ----------------------------- MODULE XlRegistry -----------------------------
 (***************************************************************************)
 (* The function registry and evaluator namespaces (C08): xl.register adds  *)
-(* a function to the global registry; an Evaluator copies the registry     *)
-(* when it is created.  A function registered BEFORE an evaluator was      *)
-(* created is callable through it (case-insensitively, with or without an  *)
-(* _xlfn. prefix, with the usual argument coercion); whether one           *)
-(* registered AFTERWARDS is visible is left open; an unregistered name     *)
-(* never yields a value.                                                   *)
+(* (or replaces) a function in the global registry; an Evaluator copies    *)
+(* the registry when it is created.  A function registered BEFORE an       *)
+(* evaluator was created is callable through it - in the version that was  *)
+(* current at that moment - case-insensitively, with or without an _xlfn.  *)
+(* prefix, with the usual argument coercion; whether a (re-)registration   *)
+(* made AFTERWARDS is visible is left open; an unregistered name never     *)
+(* yields a value.  Versions: registering a name again replaces it.        *)
 (***************************************************************************)
 EXTENDS Integers, Sequences, FiniteSets, TLC
 
-CONSTANTS FNames, Evs, MaxLen
+CONSTANTS FNames, Evs, MaxLen, MaxVer
 VARIABLES registry, ns, hist
 vars == <<registry, ns, hist>>
 
-Init == registry = {} /\ ns = [e \in {} |-> {}] /\ hist = <<>>
+Init == registry = [f \in FNames |-> 0] /\ ns = [e \in {} |-> registry] /\ hist = <<>>
 
-Register(f) == /\ Len(hist) < MaxLen /\ f \notin registry
-               /\ registry' = registry \cup {f} /\ UNCHANGED ns
-               /\ hist' = Append(hist, [op |-> "register", f |-> f, e |-> 0, res |-> "none"])
+Register(f) == /\ Len(hist) < MaxLen /\ registry[f] < MaxVer
+               /\ registry' = [registry EXCEPT ![f] = registry[f] + 1] /\ UNCHANGED ns
+               /\ hist' = Append(hist, [op |-> "register", f |-> f, e |-> 0, res |-> "none", ver |-> registry[f] + 1])
 NewEvaluator(e) == /\ Len(hist) < MaxLen /\ e \notin DOMAIN ns
                    /\ ns' = [x \in DOMAIN ns \cup {e} |-> IF x = e THEN registry ELSE ns[x]]      \* snapshot
                    /\ UNCHANGED registry
-                   /\ hist' = Append(hist, [op |-> "new", f |-> "", e |-> e, res |-> "none"])
-Outcome(e, f) == IF f \in ns[e] THEN "value" ELSE IF f \in registry THEN "open" ELSE "no-value"
+                   /\ hist' = Append(hist, [op |-> "new", f |-> "", e |-> e, res |-> "none", ver |-> 0])
+\* "value": the snapshot version is also the current one; "open": registered or re-registered after the evaluator was
+\* created (either version may answer - or none); "no-value": never registered
+Outcome(e, f) == IF ns[e][f] > 0 /\ ns[e][f] = registry[f] THEN "value"
+                 ELSE IF registry[f] > 0 THEN "open" ELSE "no-value"
 CallF(e, f) == /\ Len(hist) < MaxLen /\ e \in DOMAIN ns
-               /\ hist' = Append(hist, [op |-> "call", f |-> f, e |-> e, res |-> Outcome(e, f)])
+               /\ hist' = Append(hist, [op |-> "call", f |-> f, e |-> e, res |-> Outcome(e, f), ver |-> ns[e][f]])
                /\ UNCHANGED <<registry, ns>>
 Next == (\E f \in FNames : Register(f)) \/ (\E e \in Evs : NewEvaluator(e)) \/ (\E e \in Evs, f \in FNames : CallF(e, f))
 Spec == Init /\ [][Next]_vars
 
-\* visibility is monotone: what an evaluator could call it can still call
-SnapshotWithinRegistry == \A e \in DOMAIN ns : ns[e] \subseteq registry
+SnapshotWithinRegistry == \A e \in DOMAIN ns, f \in FNames : ns[e][f] <= registry[f]
 CallsAfterCreation == \A i \in 1..Len(hist) : hist[i].op = "call" => \E j \in 1..(i - 1) : hist[j].op = "new" /\ hist[j].e = hist[i].e
 VisibleIfRegisteredBefore == \A i \in 1..Len(hist) : (hist[i].op = "call" /\ hist[i].res = "value") =>
-    \E j \in 1..(i - 1), k \in 1..(i - 1) : j < k /\ hist[j].op = "register" /\ hist[j].f = hist[i].f /\ hist[k].op = "new" /\ hist[k].e = hist[i].e
+    \E j \in 1..(i - 1), k \in 1..(i - 1) : j < k /\ hist[j].op = "register" /\ hist[j].f = hist[i].f /\ hist[j].ver = hist[i].ver
+                                             /\ hist[k].op = "new" /\ hist[k].e = hist[i].e
 =============================================================================
